@@ -57,3 +57,17 @@ def classify(prop, violation, case, entries=None):
 # ---------------------------------------------------------------------------------------------
 # matchers (added together with the finding they belong to; see DESIGN.md section 5)
 # ---------------------------------------------------------------------------------------------
+
+
+@matcher("c03-loopvar-visible-in-isolated-component")
+def _f7(case, violation):
+    """F7: the engine has already established (by re-running the reference model with exactly this quirk switched on)
+    that the real output equals 'strict model + the innermost enclosing loop layer is forwarded into isolated
+    components' and differs from the strict model; the class name carries that diagnosis."""
+    return violation.get("class") == "SCOPE-LOOPVAR-VISIBLE-IN-ISOLATED-COMPONENT"
+
+
+@matcher("c03-fill-captured-variables-misordered")
+def _f15(case, violation):
+    """F15: established by the engine the same way as F7 (reference model re-run with exactly this quirk on)."""
+    return violation.get("class") == "SCOPE-FILL-CAPTURED-VARIABLES-MISORDERED"
